@@ -933,6 +933,8 @@ fn all_cases(cx: &mut Ctx, thorough: bool) -> Vec<Case> {
         }
     }
     cx.rng = r;
+    // small cases first: the first unlisted failure is the one that gets shrunk
+    cases.sort_by_key(|c| (c.xs.len() > 2000) as u8);
     cases
 }
 
